@@ -56,7 +56,7 @@ def gen_gen(rng, i, tier):
     else:
         st = RC.gen_state(rng)
         xd0, t = RC.gen_frame(rng, st)
-    return dict(which="GenEOS", st=st, xd0=xd0, t=t, pad=[uni(rng, 0.05, 1.0), uni(rng, 0.05, 1.0)])
+    return dict(which="GenEOS", st=st, xd0=xd0, t=t, pad=[uni(rng, 0.05, 1.0), uni(rng, 0.05, 1.0)], ideal_first=(i % 8 == 3 or i % 16 == 7))
 
 
 def fields(sol):
@@ -67,6 +67,15 @@ def fields(sol):
 def run(ctx, p):
     which, st, xd0, t = p["which"], p["st"], p["xd0"], p["t"]
     name = which + "_Solver"
+    if st.get("problem") == "JWL" and p.get("ideal_first", True):
+        # the same left/right states are solved with the ideal-gas closure first, in the same interpreter: whatever the
+        # general solver keeps between solves (tables, Hugoniot loci, integrator state) must not leak into the JWL solve
+        st0 = {k: v for k, v in st.items() if k not in ("problem", "A", "B", "R1", "R2", "r0", "e0")}
+        try:
+            RC.probe(ctx, which, st0, xd0, t)
+            ctx.count("jwl_case_preceded_by_ideal_gas_solve_of_the_same_states")
+        except (SolverRaised, Skip):
+            ctx.count("ideal_gas_decoy_solve_raised")
     pat, V = RC.probe(ctx, which, st, xd0, t)
     span = max(float(V.max() - V.min()), 1e-3 * (abs(V).max() + 1e-300)) * t
     a = xd0 + t * float(V.min()) - p["pad"][0] * span
